@@ -724,5 +724,43 @@ func genC12(o *hx.Out, tier string) {
 		}
 		o.Add("initialisation outcome agnostic: "+on.name, verdict, "expect", "ok", "odd-node "+on.name)
 	}
+	// ---- a Node value used for a second life: Initialize, Close, Initialize again (new transport),
+	// Close again: the second Close returns as the first did, and releases as much ----
+	for rep := 0; rep < 2; rep++ {
+		np := 28500 + int(hx.Seed()%100)*5 + rep
+		p1 := scn.NewPipe("life1")
+		nd := &gomavlib.Node{Endpoints: []gomavlib.EndpointConf{
+			gomavlib.EndpointCustom{ReadWriteCloser: p1},
+			gomavlib.EndpointTCPServer{Address: fmt.Sprintf("127.0.0.1:%d", np)},
+		}, Dialect: d, OutVersion: gomavlib.V2, OutSystemID: 10, HeartbeatDisable: rep == 0, HeartbeatPeriod: 50 * time.Millisecond}
+		verdict := "ok"
+		for life := 1; life <= 3 && verdict == "ok"; life++ {
+			if err := nd.Initialize(); err != nil {
+				verdict = fmt.Sprintf("LIFE-%d-INITIALIZE-FAILED %v", life, err)
+				break
+			}
+			col := scn.NewCollector(nd, 0, false)
+			col.Wait(func() bool { return len(col.Channels()) > 0 })
+			nd.WriteMessageAll(hx.RandMessage(hx.NewRand(12), d.Messages[0], 2)) //nolint:errcheck
+			if !scn.CloseWithin(nd, 8*time.Second) {
+				verdict = fmt.Sprintf("LIFE-%d-CLOSE-DID-NOT-RETURN", life)
+				break
+			}
+			select {
+			case <-col.Done:
+			case <-time.After(3 * time.Second):
+				verdict = fmt.Sprintf("LIFE-%d-EVENTS-NOT-CLOSED", life)
+			}
+			if verdict == "ok" && !canListenTCP(fmt.Sprintf("127.0.0.1:%d", np)) {
+				verdict = fmt.Sprintf("LIFE-%d-PORT-LEFT-BOUND", life)
+			}
+			// the next life gets a transport of its own
+			nd.Endpoints[0] = gomavlib.EndpointCustom{ReadWriteCloser: scn.NewPipe(fmt.Sprintf("life%d", life+1))}
+		}
+		if l := scn.Leaks(); l != "" && verdict == "ok" {
+			verdict = "GOROUTINE-LEAK " + l
+		}
+		o.Add("a Node value used again after Close", verdict, "expect", "ok", fmt.Sprintf("node-reuse rep=%d", rep))
+	}
 	runtime.GOMAXPROCS(runtime.NumCPU())
 }
